@@ -14,7 +14,6 @@ NA = {
  "C10": "shutdown ordering of the same two state machines: " + R,
  "C11": "reclamation of the in-flight tables and timers (table harness: 14 GB): " + R,
  "C12": "MaxRequests::poll_next is small, but the property is about the real BaseChannel's in-flight count under concurrent completions and a TrackedRequest carries Span + ResponseGuard (tokio mpsc) drop glue: " + R,
- "C13": "MaxChannelsPerKey over Arc/Weak trackers, a tokio unbounded queue and a hash map exceeded 10 GB / 310 s even with both replaced by models (the stale-close-notification defect is real and recorded in DESIGN §5 O1, but this family cannot decide it here)",
  "C14": "the sequence of Sink/Stream calls both state machines make on a transport: " + R,
  "C18": "trace contexts travel through call -> dispatch -> start_request; the one leaf (trace::Context::new_child) draws from rand::thread_rng(), i.e. the OS RNG; " + R,
 }
@@ -32,6 +31,9 @@ checks = [
      "in-crate overlay on a scratch copy; arming expression extracted textually each run; Instant::now stubbed; " + REPLAY, "Kani/CBMC over tarpc's own time_until + extracted server arming expression, symbolic clock; native replay", "DESIGN §3 C06"),
  chk("C07", "Bounded symbolic model checking (Kani/CBMC) of tarpc's real (de)serialisation of Context/Request through a typed wire model: for every clock reading, deadline, transit and processing delay (u32 s + ns), 1 and 3 hops, three codec conventions: never earlier, later by at most transit, expired arrives as now, omitted deadline = now+10 s.",
      "harness-side serde format (wire model) whose integer conventions are validated natively against real bincode/serde_json each run; Instant::now stubbed; handler hand-off and context::current() outside; " + REPLAY, "Kani/CBMC over the derived serde impls + absolute_to_relative_time with a symbolic clock; native replay", "DESIGN §3 C07"),
+ chk("C13", "Bounded symbolic model checking (Kani/CBMC) of the real MaxChannelsPerKey state machine (poll_next, admission by strong count, close notifications, Tracker drop) in directed scenarios with symbolic keys: stale close notification racing a same-key arrival, shedding only the key at its limit, limit 2; thorough adds longer scenarios and 3 solver-chosen operations. Sequences longer than 4-5 operations, > 2 keys and wake-ups are NOT decided.",
+     "tokio mpsc and FnvHashMap are replaced UNDER KANI ONLY by array-backed contract models (FIFO that never blocks; map with entry/insert/get/remove; capacity 2, overflow = assertion failure) injected into a scratch copy; tracing compiled out; the harness polls by hand; every counterexample is replayed natively against the REAL tokio mpsc and hash map; " + REPLAY,
+     "Kani/CBMC bounded symbolic execution of the channel-filter state machine with environment models; native replay against the real environment", "DESIGN §3 C13"),
  chk("C15", "Bounded symbolic model checking (Kani/CBMC) of the wire schema: every message variant with symbolic ids/bodies/128-bit trace ids round-trips under varint, fixed-width and self-describing conventions; sequences of 2-3 messages stay ordered and complete; all 39 stable io::ErrorKinds x 3 codec conventions (18 portable exact, others -> Other); any u32 code decodes; optional fields default. Framing under fragmentation, end-of-stream and the in-memory transports are NOT decided.",
      "wire model as in C07 (validated natively); payload strings empty, bodies u32/[u8;8]; error-kind counterexamples are additionally replayed through the real tokio_serde Bincode/Json codecs; " + REPLAY, "Kani/CBMC differential round-trip harnesses over the derived serde impls, error-kind table and transport forwarding; MIR->SMT (z3+cvc5) second engine on the error-kind table; real-codec replay", "DESIGN §3 C15"),
  chk("C16", "Bounded symbolic model checking (Kani/CBMC) of every piece of arithmetic a peer- or caller-chosen deadline reaches: decode (any u64 s / u32 ns), timer arming on both ends against DelayQueue::insert's precondition, and the rpc.deadline span field against humantime's Display precondition. Malformed frames / byte-level decoders / floods are NOT decided.",
@@ -57,7 +59,7 @@ man = {"version": 1,
              {"name": "kani-cbmc", "path": "/verif/lib/kprop.py", "serves_properties": sorted(claimed),
               "kind_free_text": "Kani 0.68 / CBMC 6.11 (cadical) bounded symbolic execution of the compiled tarpc code; harness crates in /verif/harness, in-crate overlay in /verif/overlay; counterexamples replayed natively (/verif/harness/*/src/main.rs, /verif/replay)"}],
  "checks": checks,
- "notes": "See DESIGN.md. exit 0 = held within the stated bounds; 1 = natively reproduced counterexample (VIOLATION line); 2 = inconclusive (timeout / OOM / tool error / vacuous harness / counterexample that does not reproduce). Four genuine defects were found and repaired by 'fix:' commits in /repo (known_findings.json, DESIGN §5).",
+ "notes": "See DESIGN.md. exit 0 = held within the stated bounds; 1 = natively reproduced counterexample (VIOLATION line); 2 = inconclusive (timeout / OOM / tool error / vacuous harness / counterexample that does not reproduce). Five genuine defects were found and repaired by 'fix:' commits in /repo (known_findings.json, DESIGN §5).",
  "not_applicable": na}
 json.dump(man, open(os.path.join(V, "MANIFEST.json"), "w"), indent=1)
 print("claimed:", sorted(claimed), "not applicable:", [n["property_id"] for n in na])
